@@ -51,6 +51,8 @@ let run (toks : string list) (cout : string list) : string =
            (check_reduce x ma mb (mp p2) (mp q2) (mp r2));
          need "coefficient_reduce(LCM_SPARSE): P*A = Q*B + R, deg R < deg B, P free of x"
            (check_reduce x ma mb (mp p3) (mp q3) (mp r3));
+         (* every step multiplier lcm/lc(R) is made positive, so their product P has a positive leading coefficient *)
+         need "coefficient_reduce(LCM_SPARSE): multiplier not sign-normalised" (sgn_of_z (mp_lc_sgn (mp p3)) > 0);
          (* informational: does the faithful sparse / lcm model reproduce the implementation's choice? *)
          let same ty s = match red ty ma mb with Some t -> if str3 t = s then "same" else "other" | None -> "none" in
          "CHECK ok sparse=" ^ same PseudoSparse (String.concat " " [p2; q2; r2]) ^
@@ -91,9 +93,17 @@ let run (toks : string list) (cout : string list) : string =
          need "divrem: A = D*B + R, deg R < deg B" (check_reduce x ma mb (mp_const (z_of_int 1)) (mp dd) (mp dr));
          "CHECK ok")
     | ["divides"; a; b], [res] ->
-      (match m_divides lcm_standin fuel (mp a) (mp b) with
+      let ma = mp a and mb = mp b in
+      (match m_divides lcm_standin fuel ma mb with
        | None -> "FUEL"
-       | Some v -> expect "divides" (string_of_bool01 v) res; "CHECK ok")
+       | Some v ->
+         expect "divides" (string_of_bool01 v) res;
+         (* a `true` answer is certified: the exact-division model produces the quotient, multiplied back *)
+         if v && not (mp_is_zero mb) then
+           (match m_div fuel mb ma with
+            | Some q -> need "divides answered true but quotient * divisor <> dividend" (mp_eqb (mp_mul q ma) mb)
+            | None -> raise (Fail "divides answered true but the exact division finds no quotient"));
+         "CHECK ok")
     | ["uexact"; m; p; q], [d; r; d2; r2] ->
       let k = ring_of m and p = upoly_of_string p and q = upoly_of_string q in
       let p = pnorm p and q = pnorm q in
